@@ -144,4 +144,3 @@ package resp
 //@   assert before reset: csStep == 1
 //@   ghostset after reset: csStep = 2
 //@   top-ensures csStep == 2
-
